@@ -74,6 +74,24 @@ Print Assumptions C13_empty_lhs_ignored.
 
 (* non-vacuity: a concrete text, a non-monotone position list, two rules,
    one of them with a replacement longer than the phrase *)
+(* multi-language mode: the list rewrites the parts of the main language and
+   nothing else.  The run with the list and the run without it return the
+   same languages in the same order; a part of another language is identical
+   in both; a part of the main language is replace_phrases applied to the
+   part of the run without the list (positions shifted to 1-based afterwards) *)
+From YV Require Import PState Tex2txt ReplMl.
+Theorem C13_multi_language_main_parts_only :
+  forall T is_word files lang simple mods define latex extr lines unkn thresh fuel out out0,
+  run_tex2txt T is_word files lang true simple mods define latex extr (Some lines) unkn thresh fuel = Ok out ->
+  run_tex2txt T is_word files lang true simple mods define latex extr None unkn thresh fuel = Ok out0 ->
+  exists ml ml',
+    to_result out0 = TMulti (shift1 ml) /\ to_result out = TMulti (shift1 ml') /\
+    Forall2 (same_or_replaced
+               (fun t p => replace_phrases (t_is_space T) (t_is_alpha T) is_word t p lines) lang)
+            ml ml'.
+Proof. exact tex2txt_ml_replacements. Qed.
+Print Assumptions C13_multi_language_main_parts_only.
+
 Example C13_example :
   replace_phrases_py [115;111;32;10;100;97;115;115;32;120]%N
                      [9;8;7;6;5;4;3;2;1;0]%Z
